@@ -129,11 +129,15 @@ def run(ctx):
         x = dict(full); b = x[index]; x[index] = b[:40] + bytes([b[40] ^ 0xff]) + b[41:]; st["damaged index"] = x
         x = dict(full); x.pop(index); st["missing index"] = x
         x = dict(full); x[datapaths[0]], x[datapaths[1]] = x[datapaths[1]], x[datapaths[0]]; st["swapped"] = x
+        x = dict(x)
+        for v in vols:
+            x.pop(v)
+        st["swapped, no recovery files"] = x       # every slice is still there: repair needed AND possible without any block
         return st
 
     st2 = states(full2, ps.index, list(ps.paths.values()), vols2, cap=[ps.paths["b.dat"], ps.paths["c.dat"]])      # 3 slices lost, 3 blocks
     st1 = states(full1, s1.index, list(s1.paths.values()), vols1, cap=list(s1.paths.values())[:2])   # 2 files lost, 2 volumes
-    st1.pop("swapped")
+    st1.pop("swapped"); st1.pop("swapped, no recovery files")
     cases = []      # (desc, cwd, view, args, fs)
     for fmtname, index, sts in (("par2", ps.index, st2), ("par1", s1.index, st1)):
         for sname, fs in sts.items():
